@@ -169,6 +169,29 @@ def stripLock (s : Stmt) : Stmt := s.filter fun i => !(i == .acquire || i == .re
 def Cfg.init (progs : List (List Stmt)) : Cfg :=
   { g := fun _ => {}, loc := fun i => { rest := progs.getD i [] } }
 
+/-- all orders of whole statements: session `i` appears `counts[i]` times -/
+def orders : Nat → List Nat → List (List Nat)
+  | 0, _ => [[]]
+  | fuel + 1, counts =>
+    if counts.all (· == 0) then [[]] else
+    (List.range counts.length).flatMap fun i =>
+      if counts.getD i 0 == 0 then [] else
+      (orders fuel (counts.set i (counts.getD i 0 - 1))).map (i :: ·)
+
+/-- all sessions have finished -/
+def allDone (c : Cfg) (n : Nat) : Bool := (List.range n).all fun i => done c i
+
+/-- is the per-session result of schedule `σ` the result of SOME order of whole statements? (decidable: the orders of
+    the statements of finitely many finite programs are finitely many) -/
+def serializableB (progs : List (List Stmt)) (σ : List Nat) : Bool :=
+  let n := progs.length
+  let c := runSched (Cfg.init progs) σ
+  let s0 := Cfg.init (progs.map (·.map stripLock))
+  let counts := progs.map List.length
+  (orders (counts.sum + 1) counts).any fun τ =>
+    let r := runStmts s0 τ
+    (List.range n).all fun i => decide ((c.loc i).out = (r.loc i).out)
+
 /-- a statement that is one unconditional engine call -/
 def Stmt.single : Stmt → Bool
   | [.call _ _] => true
